@@ -73,7 +73,7 @@ def client(root, logp, errp, sc):
             with open(errp, "rb") as f:
                 if marker.encode() in f.read():
                     return True
-            if time.time() - t0 > 20 or proc_gone(rt._resource_tracker._pid):
+            if time.time() - t0 > 10 or proc_gone(rt._resource_tracker._pid):
                 return False
             time.sleep(0.001)
 
@@ -111,7 +111,7 @@ def run_scenario(sc, scratch):
     errf.close()
     out = {"flags": []}
     try:
-        out["client_rc"] = p.wait(timeout=90)
+        out["client_rc"] = p.wait(timeout=60)
     except subprocess.TimeoutExpired:
         p.kill()
         p.wait()
@@ -123,7 +123,7 @@ def run_scenario(sc, scratch):
     tr = out.get("tracker")
     if tr:
         t0 = time.time()
-        while not proc_gone(tr) and time.time() - t0 < 60:
+        while not proc_gone(tr) and time.time() - t0 < 20:
             time.sleep(0.002)
         if not proc_gone(tr):
             out["flags"].append("tracker-still-running-after-60s")
@@ -146,12 +146,19 @@ def main():
         client(root, logp, errp, json.load(open(scp)))
         return
     scratch = sys.argv[1]
+    hangs = 0
     for ln in sys.stdin:
         if not ln.strip():
             continue
         sc = json.loads(ln)
+        if hangs >= 2:  # early stop: do not wait for the same time-out again and again
+            sys.stdout.write(json.dumps({"skipped": "early stop after 2 time-outs in this stream"}) + "\n")
+            sys.stdout.flush()
+            continue
         try:
             res = run_scenario(sc, scratch)
+            if res.get("flags"):
+                hangs += 1
         except Exception as e:  # noqa
             res = {"harness_error": "%s: %s" % (type(e).__name__, e)}
         sys.stdout.write(json.dumps(res) + "\n")
